@@ -463,7 +463,14 @@ def rkeys_manager_keys_not_derived(ctx):
     manager_keys_not_derived(ctx, "C05.KEYS")
 
 
-RULES = [r1_classifier_agreement, r2_routing, r3_lag_and_close, r4_single_unsubscribe, r5_close_messages_are_not_lossy, r6_refused_insert_is_pure, r7_classifiers_are_plain, r8_client_builder_fields, r9_lagged_is_reported_as_lagged, r10_sub_ids_spelled_alike, r11_response_attempt_unconditional, r12_stream_ends_only_when_channel_ends, r13_channel_is_the_only_buffer, rarr_every_element, rcancel_receive_is_cancel_safe, rkeys_manager_keys_not_derived]
+
+def rsel_shutdown_is_a_select_branch(ctx):
+    """the background tasks notice the other task's end while they wait"""
+    from .common import shutdown_is_a_select_branch
+    shutdown_is_a_select_branch(ctx, "C05.SEL")
+
+
+RULES = [rsel_shutdown_is_a_select_branch, r1_classifier_agreement, r2_routing, r3_lag_and_close, r4_single_unsubscribe, r5_close_messages_are_not_lossy, r6_refused_insert_is_pure, r7_classifiers_are_plain, r8_client_builder_fields, r9_lagged_is_reported_as_lagged, r10_sub_ids_spelled_alike, r11_response_attempt_unconditional, r12_stream_ends_only_when_channel_ends, r13_channel_is_the_only_buffer, rarr_every_element, rcancel_receive_is_cancel_safe, rkeys_manager_keys_not_derived]
 
 LEVEL_TEXT = (
     "Structural necessary conditions of the client's notification demultiplexing decided from the type-checked program: "
